@@ -8,6 +8,8 @@ package main
 // Every operation goes (a) to the Lean model driver (`c10 …` lines, canonical answers, error CLASSES),
 // (b) to an independent Go reference (sorted slice of keys -> versions) = the property oracle.
 // Open snapshots are re-read after later mutations and must return exactly their creation dump.
+// c10_cow.go adds small-tree copy-on-write cases (root leaf / shallow trees, ts advance on a flushed root, updates
+// of existing keys, all open snapshots re-read after every mutating op).
 
 import (
 	"bytes"
@@ -393,6 +395,12 @@ type c10Env struct {
 	thorough bool
 	isClosed bool
 	lastKind string
+
+	// copy-on-write ingredient tracking (input distribution only; see c10_cow.go)
+	curDepth int  // depth published by the last accepted insert (1 = the root is a leaf)
+	clean    bool // the root was just flushed / loaded: no accepted insert or ts advance since
+	armed    bool // ts advanced on a clean root while a flushed root was pinned: the next update of an existing key hits shared nodes
+	nfail    int  // oracle failures reported by this case
 }
 
 func (e *c10Env) replay(detail string) c10Replay {
@@ -408,6 +416,7 @@ func hexAll(ks [][]byte) []string {
 }
 
 func (e *c10Env) fail(sig, desc string) {
+	e.nfail++
 	e.r.Fail(sig, desc, e.replay(desc))
 }
 
